@@ -1,6 +1,7 @@
 (* Extract/D18.v — text-line interpreter of the C18 model (lease file persistence).
 
-   new <cfg> <captured> nofile|err|doc <net1> <net2> <lease>*
+   new <cfg> <captured> nofile|err|doc|docok|docbad <net1> <net2> <lease>*
+        doc = text without a checksum line, docok = checksum line matches, docbad = checksum line does not match
         cfg      = home,host,router,netfilter,dns          (prefix,addr,addr,prefix,addr)
         captured = - | mac+mac+...                         (hex MACs the session reports as captured)
         net      = nil | lan,gw,dhcp,dns,first,dur,stage
@@ -231,10 +232,13 @@ Definition input_of_args (a : list string) : option input :=
   match a with
   | ["nofile"] => Some NoFile
   | ["err"] => Some ReadErr
-  | "doc" :: n1 :: n2 :: ls =>
-      match net_of_tok n1, net_of_tok n2, all_some (map rec_of_tok ls) with
-      | Some a1, Some a2, Some rs => Some (Doc {| d_net1 := a1; d_net2 := a2; d_leases := rs |})
-      | _, _, _ => None
+  | k :: n1 :: n2 :: ls =>
+      let st := if String.eqb k "doc" then Some SumAbsent
+                else if String.eqb k "docok" then Some SumOk
+                else if String.eqb k "docbad" then Some SumBad else None in
+      match st, net_of_tok n1, net_of_tok n2, all_some (map rec_of_tok ls) with
+      | Some st', Some a1, Some a2, Some rs => Some (Doc st' {| d_net1 := a1; d_net2 := a2; d_leases := rs |})
+      | _, _, _, _ => None
       end
   | _ => None
   end.
